@@ -260,8 +260,10 @@ def check_infogain(B, ref, est, bins=41):
 
 
 def _entropy_intended(ref, est, bins):
-    """_get_entropy as its comments describe it: the interval of the FIRST annotation is the first inter-annotation
-    interval (the code's `if closest_beat == 0` is not chained with `elif`, so its value is overwritten)."""
+    """The beat-error entropy per its published definition (ig_error_def in Proofs/BeatInfoGain.v): the error of a beat
+    is relative to the inter-annotation interval on its side of the closest annotation; first / last interval at the
+    ends.  (Before the fix of _get_entropy the code's `if closest_beat == 0` was not chained with `elif`, so a beat
+    before the first annotation was normalised by 0.5*(reference_beats[0] - reference_beats[-1]).)"""
     import numpy as np
     err = []
     n = len(ref)
@@ -295,10 +297,8 @@ def check_infogain_definition(B, ref, est, bins=41):
     norm = math.log2(bins)
     want = (norm - max(f, b)) / norm
     if abs(want - r[1]) > 1e-6:
-        early = est[0] < ref[0] or ref[0] < est[0]
         return finding('beat.information_gain', 'beat error normalised by the neighbouring inter-annotation interval (first annotation: first interval)',
-                       [ref, est, bins], r[1], ('known: a beat before the first annotation is normalised by 0.5*(reference_beats[0] - reference_beats[-1]); '
-                                                'intended value %r' % float(want)) if early else 'VIOLATION: intended value %r' % float(want))
+                       [ref, est, bins], r[1], 'VIOLATION: value by the definition %r' % float(want))
     return None
 
 
